@@ -8,9 +8,14 @@ from gen import pybrace as G
 def main():
     chk = common.Check('C13')
     import pybrace_common as C
-    proved = chk.prove('I18n.Props.C13', generated=('pybrace',))
-    problems = ' '.join(chk.lean.problems)
-    driver_ok = os.path.exists(common.driver_path()) and not any('untranslatable' in s for s in chk.lean.translation.values()) \
+    proved = chk.prove('I18n.Props.C13', generated=('pybrace', 'pybracefield'), extra_targets=())
+    problems = ' '.join(p for p in chk.lean.problems if 'translator(pybracefield)' not in p)
+    # the tie by translation: Field.__init__ / FormatString.add_argument regenerated from the current lib/strformat/pybrace.py and proved equal to
+    # PyBrace.fieldInit / addArgument (Props/C13Tie.lean)
+    tie_ok = common.prove_tie(chk, 'I18n.Props.C13Tie', ('pybracefield',),
+                              'Field.__init__ / FormatString.add_argument regenerated from the current lib/strformat/pybrace.py (Generated/PyBraceField.lean) are no longer '
+                              'proved equal to PyBrace.fieldInit / PyBrace.addArgument (generated_field_init_eq_model, generated_add_argument_eq_model, generated_parse_eq_model and the corollaries)')
+    driver_ok = os.path.exists(common.driver_path()) and not any('untranslatable' in s for k, s in chk.lean.translation.items() if k != 'pybracefield') \
         and 'Driver' not in problems and 'I18n.Model' not in problems and 'I18n.Spec' not in problems
 
     boost = 3 if chk.broken else 1
@@ -29,12 +34,25 @@ def main():
     disagreeing, pdisagreeing, oracle_dis = [], [], []
     if driver_ok:
         # the models against the code
+        recorded = {}
+        plain_stream = chk.stream
+        def recording_stream(name, lines, outs, *a, **k):
+            recorded[name] = (lines, outs)
+            return plain_stream(name, lines, outs, *a, **k)
+        chk.stream = recording_stream
         for name, ss in C.run_parse_stream(chk, {k: v for k, v in fam.items() if v}).items():
             disagreeing += ss
         for name, ss in C.run_parse_stream(chk, {k: v for k, v in pfam.items() if v}, 'perlbrace', C.impl_perl).items():
             pdisagreeing += ss
         disagreeing += C.run_spec_stream(chk, G.specs(chk.rng, n_spec))
         disagreeing += C.run_cfg_stream(chk, fam['corpus'] + fam['boundary'] + fam['multi'][:2500] + fam['fixed'][::7])
+        chk.stream = plain_stream
+        if tie_ok:
+            # the same inputs (and the same outputs of the real code) through the parser whose Field.__init__ / add_argument are the definitions
+            # regenerated from the source (driver ops gparse / gparse-cfg)
+            for name, (lines, outs) in recorded.items():
+                if lines and lines[0].startswith(('pybrace parse ', 'pybrace parse-cfg ')):
+                    chk.stream(name + '-generated', [l.replace('pybrace parse', 'pybrace gparse', 1) for l in lines], outs)
         # the reference model of the interpreter against the interpreter
         ostr = fam['corpus'] + fam['boundary'] + fam['fixed'] + fam['context'] + fam['short'][::3] + fam['single'] + fam['multi'] + fam['malformed']
         oracle_dis = C.run_cpyparse_stream(chk, ostr)
@@ -108,7 +126,10 @@ def main():
                  f'with the running interpreter on every run (pybrace-cpyparse, pybrace-cpyformat): fidelity is by correspondence with CPython {sys.version.split()[0]} (64-bit) only',
                  'time: the MODEL scanners are structurally recursive (linear); the time of the implementation is regex-engine behaviour and is only TESTED '
                  '(pump strings from a structural screen of the live parse trees + hand-written templates; 16-fold size must cost < 104-fold time, 2 s cap per call)',
-                 'the correspondence harness (canonicalisers in tools/checks/pybrace_common.py, Driver/PyBrace.lean)'],
+                 'the correspondence harness (canonicalisers in tools/checks/pybrace_common.py, Driver/PyBrace.lean)',
+                 'tie by translation + proof: tools/translate/pybracefield2lean.py (over tools/translate/pytr core + objfn) is trusted; the kit Model/PyBracePy.lean is shared by both sides; '
+                 'Field.__init__ and FormatString.add_argument regenerated from the current lib/strformat/pybrace.py are PROVED equal to PyBrace.fieldInit / addArgument (Props/C13Tie.lean), '
+                 'and the parser with the regenerated constructor runs against CPython in the pybrace-*-generated streams'],
         explanation=EXPLANATION)
 
 EXPLANATION = (
@@ -129,7 +150,13 @@ EXPLANATION = (
     'CPython 3.12.1 64-bit) and of the hand-written python-brace model to the code (pybrace-* streams). Fixed in /repo and recorded: 07546e5 (exponential '
     'time on an unterminated format spec), 5d38fd1 (ValueError on {²}), a481125 (nested fields with braces in an index accepted). OUTSTANDING: the '
     'unrestricted flat_formats is false (refuted, open findings); that _simple_field_re.findall(fmt) lists the nested names the scan of the format group '
-    'collected is tied by correspondence only; time is test level.')
+    'collected is tied by correspondence only; time is test level. '
+    'TIE BY TRANSLATION (Props/C13Tie.lean): Generated/PyBraceField.lean is rewritten from the current lib/strformat/pybrace.py on every run (Field.__init__, FormatString.add_argument) and proved '
+    'equal to PyBrace.fieldInit / addArgument for all numbering states, all scanned fields and all values of SSIZE_MAX / the digit limit, exception class and argument included '
+    '(generated_field_init_eq_model, generated_add_argument_eq_model); the Field is stored in the map before self.types is assigned, so the regenerated constructor takes the future value as a '
+    'parameter and generated_field_init_types proves it returns exactly that value; the parser with the regenerated constructor in the modelled finditer loop is PyBrace.parseWith '
+    '(generated_parse_eq_model), and brace_accept_parses, brace_error_own, brace_reject, flat_formats_partial, matches_exists are restated about it (*_generated). The finditer loop, the final '
+    'intersection of the types per key and perlbrace.py remain hand-modelled.')
 
 if __name__ == '__main__':
     common.main_wrapper(main)
